@@ -1,2 +1,54 @@
-(* C05 - all spellings of a query select the same data (theorems added as they are proved) *)
-From BSE Require Import Model.Val Model.Compose.
+(* C05 - all spellings of a query select the same data.  Statements are in Proofs/ComposeDefs.v. *)
+From BSE Require Import Model.Val Model.Elements Model.Compose Proofs.ComposeDefs Proofs.ComposeSpec Proofs.SelectSpec.
+
+Theorem name_case_insensitive : name_case_insensitive_stmt.
+Proof. exact SelectSpec.name_case_insensitive. Qed.
+Print Assumptions name_case_insensitive.
+
+(* every capitalisation of a name gives the same result (data, version handling, selection, errors) *)
+Theorem name_spelling : name_spelling_stmt.
+Proof. exact SelectSpec.name_spelling. Qed.
+Print Assumptions name_spelling.
+
+(* two selections with the same members, in whatever notation or order, select the same data *)
+Theorem select_ext : select_ext_stmt.
+Proof. exact SelectSpec.select_ext. Qed.
+Print Assumptions select_ext.
+
+(* the result for a selection is the full result restricted to it (file order, per-element data identical, function types
+   recomputed, other fields unchanged); an empty selection means everything; an undefined element gives KeyError.
+   _partial: the hypothesis whole_basis_types els = inr ft0 (the full result's elements are element records) follows from
+   full_elements_types below whenever no metadata file carries an "elements" key *)
+Theorem select_spec_partial :
+  forall d name ver sel zs full fd els ft0,
+    get_basis_plain d name ver None = inr full -> full = VDict fd -> assoc "elements" fd = Some (VDict els) ->
+    whole_basis_types els = inr ft0 ->
+    expand_elements sel = inr zs ->
+    match zs with
+    | [] => get_basis_plain d name ver (Some sel) = inr full
+    | _ =>
+      let want := map Z_to_string zs in
+      if forallb (fun z => existsb (String.eqb z) (map fst els)) want then
+        exists ft, whole_basis_types (filter (fun kv => existsb (String.eqb (fst kv)) want) els) = inr ft /\
+          get_basis_plain d name ver (Some sel) =
+            inr (VDict (assoc_set "function_types" (VStrs ft)
+                          (assoc_set "elements" (VDict (filter (fun kv => existsb (String.eqb (fst kv)) want) els)) fd)))
+      else get_basis_plain d name ver (Some sel) = inl EKey
+    end.
+Proof. exact SelectSpec.select_spec_partial. Qed.
+Print Assumptions select_spec_partial.
+
+Theorem full_elements_types :
+  forall d name ver fd els,
+    get_basis_plain d name ver None = inr (VDict fd) -> assoc "elements" fd = Some (VDict els) ->
+    (forall relpath md, read_json_basis d (meta_path relpath) = inr (VDict md) -> assoc "elements" md = None) ->
+    exists ft0, whole_basis_types els = inr ft0.
+Proof. exact SelectSpec.full_elements_types. Qed.
+Print Assumptions full_elements_types.
+
+Theorem unknown_name_is_KeyError : unknown_name_stmt.
+Proof. exact SelectSpec.unknown_name. Qed.
+Print Assumptions unknown_name_is_KeyError.
+
+Example spelling_demo : transform_basis_name "6-31G*" = transform_basis_name "6-31g*" /\ transform_basis_name "6-31G*" = "6-31g_st_".
+Proof. vm_compute. split; reflexivity. Qed.
